@@ -175,7 +175,10 @@ func init() {
 			if v, ok := params["max_targets"]; ok {
 				mt, _ = strconv.Atoi(v)
 			}
-			return &wbuild{g: genCfg{MaxTargets: mt, Features: map[string]bool{}}, mode: params["mode"], focus: params["focus"], load: params["load"]}
+			wb := &wbuild{g: genCfg{MaxTargets: mt, Features: map[string]bool{}}, mode: params["mode"], focus: params["focus"], load: params["load"]}
+			wb.sweepInv, _ = strconv.Atoi(params["sweep_inv"])
+			wb.sweepOp, _ = strconv.Atoi(params["sweep_op"])
+			return wb
 		}
 	}
 }
@@ -270,7 +273,14 @@ func (w *wbuild) Drive(s *simrt.Sched, out *RunResult) {
 			if span < 20 {
 				span = 150
 			}
-			if fs.crash && simos.Plan.Budget > 0 && chance(c, 1, 3, "arm-crash") {
+			if w.focus == "sweep" {
+				// deterministic crash placement (thorough C07): no drawn faults at all
+				if w.sweepInv == w.inv+1 && w.sweepOp > 0 {
+					k := w.sweepOp
+					arm = func(p *simrt.Proc) { simos.PD(p).CrashAtOp = k }
+					note2 = fmt.Sprintf("sweep: crash at fs-op %d", k)
+				}
+			} else if fs.crash && simos.Plan.Budget > 0 && chance(c, 1, 3, "arm-crash") {
 				simos.Plan.Budget--
 				k := 1 + c.Choose(span+span/5, "crash-op")
 				arm = func(p *simrt.Proc) { simos.PD(p).CrashAtOp = k }
@@ -330,6 +340,10 @@ func (w *wbuild) Drive(s *simrt.Sched, out *RunResult) {
 			h.Note = strings.TrimSpace(h.Note + " machine=" + m.Name)
 		}
 		lastRes = res
+		for len(w.opsPerInv) < res.N {
+			w.opsPerInv = append(w.opsPerInv, 0) // invocations that are not builds (taint) are not swept
+		}
+		w.opsPerInv[res.N-1] = res.Ops
 		cs.History = append(cs.History, h)
 		w.checkBuild(res, req, opts, cm, ext0)
 		w.auditCache(m, fmt.Sprintf("after invocation %d", res.N))
@@ -497,6 +511,7 @@ func (w *wbuild) Drive(s *simrt.Sched, out *RunResult) {
 	out.Shape = hashStr(shapeParts...)
 	out.Nontrivial = builds >= 2
 	out.StateHash = w.stateHash(m)
+	out.OpsPerInv = w.opsPerInv
 }
 
 func tailStr(s string, n int) string {
